@@ -31,6 +31,7 @@ func (NopObserver) TCPWrite(c *TCPConn, b []byte)                  {}
 func (NopObserver) TCPAccepted(l *TCPListener, c *TCPConn)         {}
 func (NopObserver) TCPClosed(c *TCPConn, how string)               {}
 func (NopObserver) TCPReadEnd(c *TCPConn, err error)               {}
+func (NopObserver) IOFaulted(role, op, addr string)                {}
 
 // FrameWorld (W-frame): the real proto.STUNConn (and TCPAllocation.BindConnection) on a
 // scripted byte stream whose segmentation the plan decides.
